@@ -84,10 +84,22 @@ def _patch(mod_names):
             m.pairwise_kernels = kernel_uf
 
 
-def job_model(family, shape, m=2, hyper=None):
+def long_selections(N):
+    idn = list(range(N))
+    return [[0], [N - 1], [N // 2], idn[N - 3:], idn[::-1], idn[::2], idn[1:]]
+
+
+def job_model(family, shape, m=2, hyper=None, long_m=None):
+    """long_m: the new points are long_m rows drawn by a fixed pattern from m distinct symbolic rows (length-dependent code --
+    block-wise prediction, trailing partial blocks -- runs with its own constants); a few structured selections instead of all."""
     loader.install()
     res = _new()
     box = {}
+    sels = selections(m)
+    if long_m:
+        from .c01 import long_pattern
+        pattern = long_pattern(long_m, m)
+        sels = long_selections(long_m)
 
     def setup():
         core.CTX.strict = True
@@ -101,6 +113,8 @@ def job_model(family, shape, m=2, hyper=None):
             mdl._training_kernel = kernel_uf(T, T, metric=mdl.base_kernel, **(mdl.base_kernel_params or {}))
             Xtrain = T
         X = harness.free_matrix(m, d, "x")
+        if long_m:
+            X = X[np.asarray(pattern)]
         box.update(mdl=mdl, Xtrain=Xtrain)
         return mdl, X
 
@@ -109,7 +123,7 @@ def job_model(family, shape, m=2, hyper=None):
         full_p = mdl.predict_proba(X)
         full_l = [int(v) for v in np.asarray(mdl.predict(X)).reshape(-1)]
         outs = []
-        for sel in selections(X.shape[0]):
+        for sel in sels:
             Xs = X[sel]
             outs.append((sel, mdl.predict_proba(Xs), [int(v) for v in np.asarray(mdl.predict(Xs)).reshape(-1)]))
         again = mdl.predict_proba(X)                      # same object, second call: no state left behind by the calls above
@@ -124,7 +138,7 @@ def job_model(family, shape, m=2, hyper=None):
         return full_p, full_l, outs, again, cop, train
 
     ex = Explorer(max_paths=3000)
-    tagbase = f"{family}/{cm.shape_str(shape)}/m{m}"
+    tagbase = f"{family}/{cm.shape_str(shape)}/m{m}" + (f"/N{long_m}" if long_m else "")
     seen = set()
     for out, pc, trace in ex.run(body, setup):
         res["paths"] += 1
@@ -139,8 +153,9 @@ def job_model(family, shape, m=2, hyper=None):
             p = np.asarray(p, dtype=object)
             okp = p.shape[0] == len(sel) and all(_keys(p[a]) == _keys(full_p[r]) for a, r in enumerate(sel))
             okl = l == [full_l[r] for r in sel]
-            checks.append((f"rows {sel}: predict_proba rows equal the full-array rows", okp, "subset-proba"))
-            checks.append((f"rows {sel}: predict labels equal the full-array labels", okl, "subset-predict"))
+            sname = sel if len(sel) <= 4 else f"[{sel[0]},{sel[1]},..,{sel[-1]}] ({len(sel)} rows)"
+            checks.append((f"rows {sname}: predict_proba rows equal the full-array rows", okp, "subset-proba"))
+            checks.append((f"rows {sname}: predict labels equal the full-array labels", okl, "subset-predict"))
         checks.append(("second call on the same array gives the same rows", _keys(again) == _keys(full_p), "repeat-call"))
         checks.append(("a copy of the array gives the same rows", _keys(cop) == _keys(full_p), "copy"))
         if train is not None:
@@ -151,7 +166,7 @@ def job_model(family, shape, m=2, hyper=None):
             res["obligations"].append({"name": f"{tag}/{nm}", "verdict": "unsat" if ok else "sat", "how": "term-identity"})
             sig = f"{PROP}:{family}:{short}"
             if not ok and sig not in seen:
-                rep = {"kind": "model", "family": family, "shape": list(shape), "m": m, "which": short, "hyper": _jsonable(hyper)}
+                rep = {"kind": "model", "family": family, "shape": list(shape), "m": m, "which": short, "hyper": _jsonable(hyper), "long_m": long_m}
                 if replay(rep):
                     seen.add(sig)
                     res["violations"].append({"signature": sig, "what": f"{family}: {nm} -- violated", "replay": rep})
@@ -281,9 +296,9 @@ def replay(rep, verbose=False):
         if cm.BASE[family] == "douglas":
             mdl.temperature = 0.8
         mdl.labels_ = np.zeros(1)
-        Xn = rng.normal(size=(m + 2, d))
+        Xn = rng.normal(size=((rep.get("long_m") or m + 2), d))
         full = mdl.predict_proba(Xn)
-        for sel in selections(min(m + 1, 3)):
+        for sel in (long_selections(len(Xn)) if rep.get("long_m") else selections(min(m + 1, 3))):
             if not np.allclose(mdl.predict_proba(Xn[sel]), full[sel], rtol=1e-10, atol=1e-12):
                 return True
         if not np.allclose(mdl.predict_proba(Xn), full) or not np.allclose(mdl.predict_proba(Xn.copy()), full):
@@ -310,6 +325,9 @@ def jobs(tier):
     for fam, sh, m, hy in mods:
         out.append({"name": f"{fam}/{cm.shape_str(sh)}/m{m}/{'params' if hy else 'default'}", "target": "checks.c18:job_model", "kwargs": dict(family=fam, shape=sh, m=m, hyper=hy),
                     "timeout": 280 if q else 2400})
+    for fam, sh in [("LinearModel", (2, 2, 2)), ("MLPModel", (2, 2, 1, 2)), ("Douglas", (2, 1, 1, 2)), ("KernelRIM", (2, 2)), ("SparseMLPModel", (2, 1, 1, 2))]:
+        for N in ([70] if q else [70, 300]):
+            out.append({"name": f"{fam}/{cm.shape_str(sh)}/m2/long{N}", "target": "checks.c18:job_model", "kwargs": dict(family=fam, shape=sh, m=2, long_m=N), "timeout": 280 if q else 2400})
     for L in ([2, 3] if q else [2, 3, 4]):
         out.append({"name": f"kauri/L{L}", "target": "checks.c18:job_kauri", "kwargs": dict(L=L, m=2), "timeout": 280 if q else 2400})
     return out
